@@ -462,6 +462,7 @@ pub fn property() -> Property {
         rule: "A case is (installation layout, query history). Layout: platform in 5; base + a shuffled subset of ex1..ex9; 1..6 chunks keyed (repository, category in 15, chunk 0..9), each with index, index2 or both (consistent), sorted or unsorted tables, 1..40 stored paths category/[exN/]dirs/name.ext at 128-aligned offsets in dat0..dat7 (some beyond 4 GiB in sparse files), some base files under the folder of an uninstalled expansion (documented fall-back); every stored file's content embeds (repo, category, chunk, dat, offset, path). History: 1..40 exists/find_offset/extract calls on one handle over stored paths, case-flipped stored paths (category and repository tokens included), absent names, absent folders, other category, other repository, unknown category; then the same queries reversed on a fresh handle. Oracle: stateless model (own JAMCRC): lower-case, category = first component, repository = second component if installed else base, present iff an index/index2 of that (repository, category) holds the hash. Plus a covering sweep over (category, expansion, chunk, platform). evaluations counts individual queries. Non-trivial: a history with at least one positive answer needing an expansion, index2-only chunk, chunk > 0 or dat > 0 AND at least one negative answer; distinct by hash of the case.",
         assumptions: &["a path is stored in exactly one chunk; synonym-flagged entries and depth-2 paths whose file name is a repository name are not generated (answer would depend on search order)", "CRC-32 collisions between generated paths are ignored (probability ~ 2^-32 per pair)"],
         pre: None,
+        post: None,
         parts: vec![
             Box::new(Part { name: "covering-sweep", driver: Driver::Enum(sweep), prop, exhaustive: false }),
             Box::new(Part { name: "layouts", driver: Driver::Gen(strategy, 600, 8_000), prop, exhaustive: false }),
